@@ -35,7 +35,25 @@ Inductive case :=
 (* admission rounds repeated in a child process built with Go's race detector: number of data race
    reports (the observable counterpart of the lock-discipline theorem); ran = the race-enabled
    child could be built and run *)
-| Race (rounds reports : nat) (ran : bool).
+| Race (rounds reports : nat) (ran : bool)
+(* admission versus teardown: a session of np processes ends; its teardown is parked inside
+   CloseSession (at = 0) or inside Stop of process at-1 while a second request for the same session id
+   is issued; impl: see Model.tear_ok; stops_before: completed Stop calls per process of the first
+   run when the second request was issued *)
+| Tear (np at_ : nat) (parked : bool) (dec fin : tdec) (closed_before : nat) (stops_before : list nat)
+       (late live_at_b : nat) (ret_parked : bool) (stops_after : list nat) (closes : nat)
+       (third pend_after : bool)
+(* the real Libp2pCommunication over a fake host with P peers and S session ids, broadcasts to
+   several peers (one WSend per addressee, in the order of the peers) with scripted NewStream
+   failures; wfails: for every stream the host handed out whether its first write fails (later
+   writes fail too in some cases; some streams fail to close); impl: per operation the streams
+   handed out / written to / closed or reset *)
+| CommW (P S : nat) (wfails : list bool) (ops : list wop) (impl : list wobs)
+(* concurrent session lifetimes on one real Libp2pCommunication value (handed around by value) and
+   sessions of the real Coordinator.Execute on it, in a child process built with the race detector:
+   data race reports (incl. the runtime's "concurrent map" aborts), subscriptions left in the table,
+   streams handed out and never closed *)
+| RaceComm (workers rounds reports leftover unreleased sessions : nat) (ran : bool).
 
 Definition ret_eqb (a b : ret) : bool :=
   match a, b with
@@ -95,6 +113,20 @@ Fixpoint cobss_eqb (a b : list cobs) : bool :=
   | _, _ => false
   end.
 
+Definition wobs_eqb (a b : wobs) : bool :=
+  match a, b with
+  | WSent o1 w1 r1, WSent o2 w2 r2 => nats_eqb o1 o2 && nats_eqb w1 w2 && nats_eqb r1 r2
+  | WClosed xs, WClosed ys => nats_eqb xs ys
+  | _, _ => false
+  end.
+
+Fixpoint wobss_eqb (a b : list wobs) : bool :=
+  match a, b with
+  | [], [] => true
+  | x :: a', y :: b' => wobs_eqb x y && wobss_eqb a' b'
+  | _, _ => false
+  end.
+
 Definition nsids (sids : list nat) : nat := S (fold_left Nat.max sids 0).
 
 Definition admitted_count (n : nat) (sid : nat -> nat) (adm : nat -> bool) (s : nat) : nat :=
@@ -130,6 +162,16 @@ Definition agree (c : case) : bool :=
                            && Nat.eqb (admitted_count n sid (fun t => negb (nth t (fst r) true)) 0) m) rounds
   | Comm P fails ops impl => peers_below P ops && cobss_eqb (model_cobs P (sm_empty, 0) ops) impl
   | Race _ _ ran => ran
+  | Tear np at_ parked dec fin cb sb late live rp sa cl third pa =>
+      let order := code_teardown np in
+      let st := arrive order (tear_pos at_) in
+      Nat.leb at_ np && parked
+      && tdec_eqb dec (model_dec np at_) && tdec_eqb fin (model_dec np at_)
+      && Nat.eqb cb (t_closed st) && nats_eqb sb (stops_vec np st)
+  | CommW P nS wfails ops impl =>
+      wpeers_below P ops
+      && wobss_eqb (model_wobs RegOnOpen (fun x => nth x wfails false) P (sm_empty, 0) ops) impl
+  | RaceComm _ _ _ _ _ _ ran => ran
   end.
 
 Definition judge (c : case) : bool :=
@@ -147,6 +189,11 @@ Definition judge (c : case) : bool :=
                         && Nat.leb (snd r) 1) rounds
   | Comm P fails ops impl => comm_ok [] (fun _ => []) ops impl
   | Race _ reports _ => Nat.eqb reports 0
+  | Tear np at_ parked dec fin cb sb late live rp sa cl third pa =>
+      tear_ok np dec fin cb late live rp sa cl third pa
+  | CommW P nS wfails ops impl => wcomm_ok nS [] [] (fun _ => []) ops impl
+  | RaceComm _ _ reports leftover unreleased _ _ =>
+      Nat.eqb reports 0 && Nat.eqb leftover 0 && Nat.eqb unreleased 0
   end.
 
 Definition has_dup (l : list nat) : bool :=
@@ -164,6 +211,9 @@ Definition tag (c : case) : N :=
   | Storm _ _ => 33%N
   | Comm _ fails _ _ => if existsb (fun b => b) fails then 35%N else 34%N
   | Race _ _ _ => 31%N
+  | Tear _ at_ _ _ _ _ _ _ _ _ _ _ _ _ => if Nat.eqb at_ 0 then 36%N else 37%N
+  | CommW _ _ wfails _ _ => if existsb (fun b => b) wfails then 39%N else 38%N
+  | RaceComm _ _ _ _ _ _ _ => 40%N
   end.
 
 Definition check_all := check_cases agree judge tag.
